@@ -105,7 +105,9 @@ def gen(rng, tier, index):
                 nid = ident
             ops.append({"op": "write_nc", "id": nid, "data": _payload(rng, i, "NC-" + stem, as_bytes, idclass == "exotic-payload")})
         elif r < 0.66:
-            ops.append({"op": "write_log", "id": f"log{i}.log", "data": f"log {i}\n"})
+            # log names unrelated to, equal to, or containing a record's stem
+            lname = rng.choice([f"log{i}.log", f"{stem}.log", f"{stem}.{suffix}.log", "run.log"])
+            ops.append({"op": "write_log", "id": lname, "data": f"log {i} {stem}\n"})
         elif r < 0.78:
             if rng.random() < 0.3:
                 ops.append({"op": "drop_nc", "id": None})
@@ -124,8 +126,10 @@ def gen(rng, tier, index):
         o["peek"] = rng.random() < (0.3 if o["op"] == "restart" else 0.6)
     if ops:
         ops[-1]["peek"] = True
+    clock = rng.choice([[1.0], [1.0], [0.0, 0.0, 1.0], [0.0], [3600.0, 0.0]])  # ties and jumps
     return {
         "engine": "c13",
+        "clock": clock,
         "backend": backend,
         "suffix": suffix,
         "idclass": idclass,
@@ -335,7 +339,7 @@ def run(plan, tier="quick") -> RunResult:
     res = RunResult()
     root = simos.make_sandbox("c13")
     sim = simos.SimOS(root, dir_order=plan["dir_order"])
-    sql = simsql.SimSql(sim)
+    sql = simsql.SimSql(sim, clock=simsql.SimClock(steps=plan.get("clock") or [1.0]))
     backend = plan["backend"]
     be = "sqlite" if backend != "dir" else "dir"
     store = Store(plan, root, sim, sql)
